@@ -555,7 +555,8 @@ func runC03(c *core.Ctx) {
 		}
 		samt, sabs := map[string]*big.Rat{}, map[string]*big.Rat{}
 		for _, d := range w.Log {
-			for _, e := range model.MergeDay(d) {
+			// entry by entry (not merged per day): the error bound is the sum of the absolute terms
+			for _, e := range d.Ents {
 				if es, ok := w.Res[e.Name]; ok {
 					if k := indexElem(es, x); k >= 0 {
 						if samt[e.Name] == nil {
